@@ -33,7 +33,7 @@ let read_cases path =
        | _ -> failwith ("bad line outside case: " ^ l))
     | Some (eng, name, ops) ->
       if l = "END" then (cases := (eng, name, List.rev ops) :: !cases; cur := None)
-      else if (String.length l >= 5 && String.sub l 0 5 = "CRASH") || l = "HANG" || l = "MISSING" then cur := Some (eng, name, [z_of_int (-999)] :: ops)
+      else if (String.length l >= 5 && String.sub l 0 5 = "CRASH") || l = "HANG" || l = "MISSING" || l = "SKIPPED" then cur := Some (eng, name, [z_of_int (-999)] :: ops)
       else cur := Some (eng, name, parse_line l :: ops)
   done with End_of_file -> ());
   close_in ic;
